@@ -36,7 +36,9 @@ def gen_case(rng, nthreads=None):
     prog = []
     for _ in range(rng.randint(2, 5)):
       r = rng.random()
-      if r < 0.5:
+      if r < 0.08:
+        prog.append(['single_noctor', rng.choice(keys)])   # a use without constructor: an error unless cached
+      elif r < 0.5:
         prog.append(['single', rng.choice(keys)])
       elif r < 0.85:
         prog.append(['call', rng.choice(['f', 'g']), rng.choice(['', 'a', 'a/b']), rng.choice([None, 1, 2])])
@@ -121,6 +123,10 @@ class Sched:
             raise core.Infra('scheduler watchdog: turn did not complete')
 
 
+class Blocked(Exception):
+  pass
+
+
 class SDict(dict):
   """dict with a scheduling point before every access gin makes to it."""
   sched = None
@@ -172,12 +178,17 @@ class SLock:
 
   def acquire(self):
     me = threading.get_ident()
+    spins = 0
     while True:
       self.sched.checkpoint()
       if self.owner is None or self.owner == me:
         self.owner = me
         self.depth += 1
         return True
+      spins += 1
+      if spins > 1500:
+        # every other thread had hundreds of turns and the lock is still held: its holder left it locked
+        raise Blocked('blocked forever on a gin lock that another thread left held')
 
   def release(self):
     self.depth -= 1
@@ -222,6 +233,12 @@ def do_action(gin, fns, act, counts, log):
       return None if key == 'kn' else object()
     obj = gin.config.singleton_value(key, ctor)
     log.append(['single', key, id(obj)])
+  elif act[0] == 'single_noctor':
+    try:
+      obj = gin.config.singleton_value(act[1])
+      log.append(['single', act[1], id(obj)])
+    except ValueError:
+      log.append(['noctor_error', act[1]])   # nothing cached yet: the documented error, nobody else's fault
   elif act[0] == 'call':
     import contextlib
     with contextlib.ExitStack() as st:
